@@ -101,7 +101,7 @@ pub fn arbitrary(rng: &mut Rng, big: bool) -> String {
         7 => {
             if big {
                 let mut s = String::from("import pytest\n");
-                for i in 0..20000 {
+                for i in 0..5000 {
                     s.push_str(&format!("@pytest.fixture\ndef fx_{}(fx_{}):\n    return 1\n", i, i + 1));
                 }
                 s
